@@ -3,7 +3,7 @@
    of (well-formed) values, equal values feed the hasher identically, cy_order is a total
    preorder. *)
 From Coq Require Import List NArith ZArith Bool Lia Permutation.
-From Verif Require Import CheckLib Value.
+From Verif Require Import CheckLib Value Index.
 Import ListNotations.
 Open Scope Z_scope.
 
@@ -892,32 +892,7 @@ Qed.
    PropertyIndex is a BTreeMap<PropertyValue, HashSet<NodeId>>; std's B-tree is represented
    here by what it maintains, a key-sorted association list searched with pv_cmp (the search
    stops as soon as the probe is smaller than the entry, as a tree search does). *)
-Definition index := list (pv * list N).
-
-Fixpoint idx_insert (k : pv) (id : N) (m : index) : index :=
-  match m with
-  | [] => [(k, [id])]
-  | (k', ids) :: r =>
-      match pv_cmp k k' with
-      | Lt => (k, [id]) :: m
-      | Eq => (k', id :: ids) :: r
-      | Gt => (k', ids) :: idx_insert k id r
-      end
-  end.
-
-Fixpoint idx_get (k : pv) (m : index) : list N :=
-  match m with
-  | [] => []
-  | (k', ids) :: r =>
-      match pv_cmp k k' with
-      | Lt => []
-      | Eq => ids
-      | Gt => idx_get k r
-      end
-  end.
-
-Definition idx_build (ops : list (pv * N)) : index :=
-  fold_left (fun m p => idx_insert (fst p) (snd p) m) ops [].
+(* index, idx_insert, idx_get, idx_build : coq/model/Index.v *)
 
 Definition pv_lt (a b : pv) : Prop := pv_cmp a b = Lt.
 Definition idx_sorted (m : index) : Prop := StronglySorted pv_lt (map fst m).
